@@ -292,7 +292,8 @@ fn gen_prom(rng: &mut Rng, collide: bool) -> Vec<PSeries> {
     // one request's samples lie within two hours of a base instant (a request spanning decades makes the
     // hour-bucket index of its chunk explode; noted in DESIGN.md, not what C17 is about)
     let base_ms: i64 = *rng.pick(&[0i64, -3_600_000, 1_700_000_000_000, 1_700_000_000_000, 3_999_999_000_000, -1_999_999_000_000]);
-    let label_pool = ["host", "region", "job", "instance", "le", "env", "quantile", "a_very_long_label_name_x"];
+    // (names starting with an upper-case letter sort before "__name__" in a sender that sorts its labels)
+    let label_pool = ["host", "region", "job", "instance", "le", "env", "quantile", "a_very_long_label_name_x", "Cluster", "AZ", "Host"];
     (0..nseries)
         .map(|si| {
             let mut labels = vec![("__name__".to_string(), format!("metric_{}", rng.below(3)))];
@@ -309,6 +310,13 @@ fn gen_prom(rng: &mut Rng, collide: bool) -> Vec<PSeries> {
             }
             if rng.chance(1, 12) {
                 labels.remove(0); // series without a metric name
+            }
+            // label order as senders produce it: name first, sorted by label name (the remote-write
+            // convention), or unsorted
+            match rng.below(4) {
+                0 => labels.sort(),
+                1 => rng.shuffle(&mut labels),
+                _ => {}
             }
             let ns = rng.usize(4);
             let samples = (0..ns).map(|_| (base_ms + rng.range(-3_600_000, 3_600_000), gen_value(rng))).collect();
